@@ -93,6 +93,11 @@ class Prop(PropBase):
                     "pol": rng.choice(["linear", "circular", "", "elliptical", "Linear"])}[attr]
             yield {"op": "new", "cls": cls, "shape": shape, "dtype": dtype, "dask": rng.random() < 0.3, "args": args,
                    "assign": [attr, kind]}
+        # Dask arrays whose sample axes have UNKNOWN lengths (boolean-mask selection): the contract cannot be verified, so no
+        # object may result, valid metadata or not
+        for cls in sigs.CLASSES[1:]:
+            for keep in ([True, False, True, True], [False, False, False, False]):
+                yield {"op": "nanaxis", "cls": cls, "keep": keep, "dtype": "complex128" if sigs.is_complex(cls) else "float64"}
         for _ in range(250 if quick else 6000):
             cls = rng.choice(sigs.CLASSES)
             ops = [rng.choice(OPS) for _ in range(rng.choice([1, 1, 2, 3, 4]))]
@@ -132,6 +137,21 @@ class Prop(PropBase):
 
     def run_code(self, case):
         pb, np, u = self.pb, self.np, self.u
+        if case["op"] == "nanaxis":
+            cls = case["cls"]
+            shape = (8, 4) + sigs.sample_shape(cls, 4)[1:]
+            x = self.da.from_array(np.ones(shape, dtype=case["dtype"]), chunks=-1)
+            x = x[:, self.da.from_array(np.array(case["keep"]), chunks=-1)]           # channel axis of unknown length
+            kw = dict(sample_rate=1 * u.MHz, center_freq=1 * u.GHz)
+            if not sigs.is_complex(cls):
+                kw["chan_bw"] = 1 * u.MHz
+            if cls == "DualPolarizationSignal":
+                kw["pol_type"] = "linear"
+            try:
+                z = getattr(pb, cls)(x, **kw)
+                return {"ok": {"shape": [None if s != s else int(s) for s in z.shape], "computed": list(np.asarray(z.data).shape)}}
+            except Exception as e:
+                return {"err": err_name(e)}
         if case["op"] == "new":
             cls = case["cls"]
             C = getattr(pb, cls)
@@ -282,6 +302,8 @@ class Prop(PropBase):
                 f"{a['align'] or 'EMPTY'} {a['pol'] or 'EMPTY'}")
 
     def model_requests(self, case, code):
+        if case["op"] == "nanaxis":
+            return []
         if case["op"] == "new":
             safe = code.get("safe", code.get("ok", {}).get("safe", False))
             return [self._req(case["cls"], case["shape"], case["dtype"], safe, case["args"]), f"c16 like {case['cls']}"]
@@ -293,6 +315,9 @@ class Prop(PropBase):
         return reqs
 
     def model_result(self, case, replies):
+        if case["op"] == "nanaxis":
+            return {}
+
         def parse(r):
             r = r.split()
             if r[0] == "err":
@@ -319,6 +344,8 @@ class Prop(PropBase):
         return True
 
     def agree(self, case, code, model):
+        if case["op"] == "nanaxis":
+            return True
         if case["op"] == "new":
             if not model.get("like", False):
                 return False
@@ -356,6 +383,11 @@ class Prop(PropBase):
 
     def spec_violation(self, case, code):
         np = self.np
+        if case["op"] == "nanaxis":
+            if "ok" in code:
+                return (f"{case['cls']} built from a Dask array with an axis of unknown length: object of shape {code['ok']['shape']} "
+                        f"(computes to {code['ok']['computed']}) — the class contract was never checked")
+            return None if code["err"] == "ValueError" else f"raised {code['err']}, expected ValueError"
         if case["op"] == "new":
             v = self._valid_request(case)
             if "ok" in code:
@@ -404,6 +436,8 @@ class Prop(PropBase):
         return case
 
     def tags(self, case, code):
+        if case["op"] == "nanaxis":
+            return ["nanaxis", case["cls"]]
         if case["op"] == "new":
             t = ["new", case["cls"], "dask" if case["dask"] else "numpy", "ok" if "ok" in code else "rejected"]
             if "ok" in code and CAN[case["dtype"]] != code["ok"]["dtype"]:
